@@ -411,6 +411,22 @@ func balloonIn(in *fuzzInput) bool {
 	return false
 }
 
+// lineWithinLineIn: does the input contain the listed line-WITHIN-line test?
+func lineWithinLineIn(in *fuzzInput) bool {
+	if in.Args != nil {
+		return wire.LineWithinLine(in.Args)
+	}
+	if !bytes.Contains(in.Raw, []byte("LineString")) {
+		return false
+	}
+	for _, c := range wire.SplitCommands(in.Raw) {
+		if wire.LineWithinLine(c) {
+			return true
+		}
+	}
+	return false
+}
+
 func (q *quarantine) skip(in *fuzzInput) bool {
 	q.mu.Lock()
 	defer q.mu.Unlock()
@@ -421,6 +437,9 @@ func (q *quarantine) skip(in *fuzzInput) bool {
 		return true
 	}
 	if q.words["JSET"] && balloonIn(in) {
+		return true
+	}
+	if q.words["line-within-line"] && lineWithinLineIn(in) {
 		return true
 	}
 	return false
@@ -738,6 +757,12 @@ func (ck *checker) runBatch(bidx int, inputs []*fuzzInput, rng *rand.Rand, logf 
 					} else if word == "JSET" {
 						word = "JSET+other"
 					}
+					// the listed geometry-library hang: exactly wedge:line-within-line
+					if lineWithinLineIn(in) && (in.Args != nil || handler == "TEST" || strings.HasPrefix(handler, "WITHIN")) {
+						word = "line-within-line"
+					} else if word == "line-within-line" {
+						word = "line-within-line+other"
+					}
 					ck.report("wedge:"+word, fmt.Sprintf("the bystander's write %q was not answered within %v after input %s %q (canary process answered a write within 1 s): a request never returns while holding the server lock", fs.by.last, ioTimeout, in.Gen, abbreviate([][]string{in.Args})),
 						map[string]any{"recent_inputs": replayOf(recent), "handler": handler, "goroutines_in_handlers": stacks})
 					ctx.Count("wedges", 1)
@@ -755,7 +780,19 @@ func (ck *checker) runBatch(bidx int, inputs []*fuzzInput, rng *rand.Rand, logf 
 			}
 			// i/o error or deviated-with-dead-server: did the server die?
 			if fs.s.WaitExit(3 * time.Second) {
-				_, site := fs.s.Crashed()
+				crashed, site := fs.s.Crashed()
+				if !crashed {
+					// the child is gone without a panic or runtime error in its stderr: killed
+					// from outside (e.g. the kernel's OOM killer on an overloaded machine)
+					if balloonIn(in) {
+						ck.report("wedge:JSET", "server process was killed while executing the JSET balloon "+fmt.Sprint(abbreviate([][]string{in.Args})), map[string]any{"recent_inputs": replayOf(recent)})
+					} else {
+						ctx.Inconclusive("a child server disappeared without a crash report (killed from outside?)")
+					}
+					fs.close()
+					fs = ck.newSession(rng, true)
+					continue
+				}
 				key := crashKey(site)
 				if strings.Contains(site, "cmdJset") && (strings.Contains(site, "out of memory") || strings.Contains(site, "cannot allocate")) && balloonIn(in) {
 					// the listed JSET balloon, ended by the address-space limit of the child instead of the wedge watchdog
@@ -800,13 +837,19 @@ func (ck *checker) runBatch(bidx int, inputs []*fuzzInput, rng *rand.Rand, logf 
 // confirmWedge replays the recent inputs on a fresh server and reports whether a
 // bystander write is again unanswered for 10 s while the canary answers.
 func (ck *checker) confirmWedge(recent []*fuzzInput, rng *rand.Rand, can *canary) bool {
-	fs := ck.newSession(rng, true)
-	defer func() { fs.s.Kill9(); fs.close() }()
-	for _, in := range recent {
-		ck.sendInput(fs.s.Addr(), in)
+	try := func(list []*fuzzInput) bool {
+		fs := ck.newSession(rng, true)
+		defer func() { fs.s.Kill9(); fs.close() }()
+		for _, in := range list {
+			ck.sendInput(fs.s.Addr(), in)
+		}
+		st, _ := fs.by.step(false, true)
+		return st == byTimeout && can.answers()
 	}
-	st, _ := fs.by.step(false, true)
-	return st == byTimeout && can.answers()
+	if len(recent) > 0 && try(recent[len(recent)-1:]) {
+		return true
+	}
+	return len(recent) > 1 && try(recent)
 }
 
 func clipTail(s string, n int) string {
